@@ -50,6 +50,23 @@ def _is_random_bulk(e: ast.AST) -> bool:
     return False
 
 
+def _unsanitised_random(v: ast.AST) -> bool:
+    "does the expression contain a bulk random comparison that is not (itself inside) an argument of the sanitiser?"
+    par = X.parents_map(v)
+    for c_ in ast.walk(v):
+        if isinstance(c_, ast.Compare) and _is_random_bulk(c_):
+            x = c_
+            clean = False
+            while x in par:
+                x = par[x]
+                if isinstance(x, ast.Call) and X.U(x.func).endswith(FILL):
+                    clean = True
+                    break
+            if not clean:
+                return True
+    return False
+
+
 def rule_B1(ctx: Ctx) -> None:
     exp = ("every array derived from a bulk random draw passes through _fill_edges_with_walls before it becomes (part of) a maze's "
            "connection_list")
@@ -71,7 +88,7 @@ def rule_B1(ctx: Ctx) -> None:
                             st.discard(tg.id)
                             if isinstance(v.args[0], ast.Name):
                                 st.discard(v.args[0].id)  # sanitised in place
-                        elif _is_random_bulk(v) and isinstance(v, (ast.Compare, ast.BoolOp, ast.UnaryOp, ast.BinOp, ast.Call)) and not X.U(v.func if isinstance(v, ast.Call) else v).endswith(("randint", "choice")):
+                        elif _unsanitised_random(v):
                             st.add(tg.id)
                         elif any(isinstance(x, ast.Name) and x.id in st for x in ast.walk(v)):
                             st.add(tg.id)
@@ -89,9 +106,7 @@ def rule_B1(ctx: Ctx) -> None:
             if a is None or node.kind != "stmt" and node.kind != "return":
                 continue
             st = IN.get(node.id, frozenset())
-            if isinstance(a, (ast.Assign, ast.AnnAssign)) and getattr(a, "value", None) is not None and _is_random_bulk(a.value) \
-                    and isinstance(a.value, ast.Compare):
-                n_sources += 1
+            n_sources += sum(1 for c_ in ast.walk(a) if isinstance(c_, ast.Compare) and _is_random_bulk(c_)) if node.kind in ("stmt", "return") else 0
             sinks = []
             for c in ast.walk(a):
                 if isinstance(c, ast.Call) and X.U(c.func).endswith("LatticeMaze"):
@@ -103,7 +118,7 @@ def rule_B1(ctx: Ctx) -> None:
                 sinks.append(("store to maze.__dict__['connection_list']", a.value))
             for what, v in sinks:
                 tainted = sorted({x.id for x in ast.walk(v) if isinstance(x, ast.Name) and x.id in st})
-                direct = _is_random_bulk(v)
+                direct = _unsanitised_random(v)
                 ctx.judge(f, not tainted and not direct, {"sink": what, "value": X.U(v)[:80], "unsanitised_random_arrays": tainted, "random_inline": direct},
                           exp, "random connections on the last row (down) / last column (right) leave the grid", node=a)
     ctx.stat("bulk_random_sources", n_sources)
@@ -187,31 +202,23 @@ def rule_B2(ctx: Ctx) -> None:
             and isinstance(it.args[0], ast.BinOp) and isinstance(it.args[0].op, ast.Add) and X.U(it.args[0].right).endswith("NEIGHBORS_MASK")
         ctx.judge(f, ok, {"iter": X.U(it)}, "each candidate is paired with its own delta: zip(current + NEIGHBORS_MASK, NEIGHBORS_MASK)")
     h = ctx.index.func(f"{GEN}.get_neighbors_in_bounds")
-    masks = [n for n in ast.walk(h.node) if isinstance(n, ast.BinOp) and isinstance(n.op, ast.BitAnd)]
-    exp = "get_neighbors_in_bounds keeps rows with (n >= 0).all(axis=1) & (n < grid_shape).all(axis=1)"
-    if len(masks) != 1:
-        ctx.unknown(h, {"masks": len(masks)}, exp)
-    else:
-        atoms = set()
-        okshape = True
-        for side in (masks[0].left, masks[0].right):
-            if isinstance(side, ast.Call) and isinstance(side.func, ast.Attribute) and side.func.attr == "all" and isinstance(side.func.value, ast.Compare):
-                ax = N.kwarg(side, "axis") or (side.args[0] if side.args else None)
-                if N.const_int(ax) != 1:
-                    okshape = False
-                c = side.func.value
-                atoms.add(N.compare_atom(c.left, c.ops[0], c.comparators[0]).key())
-            else:
-                okshape = False
-        nb = None
-        for n in ast.walk(h.node):
-            if isinstance(n, ast.Subscript) and n.slice is masks[0]:
-                nb = X.U(n.value)
-        gs = h.params()[1]
-        want = {N.compare_atom(X.expr_of(nb or "neighbors"), ast.GtE(), ast.Constant(0)).key(),
-                N.compare_atom(X.expr_of(nb or "neighbors"), ast.Lt(), X.expr_of(gs)).key()}
-        ctx.judge(h, (atoms == want) if okshape else None, {"mask": X.U(masks[0])}, exp,
-                  "Wilson's walk can step outside the grid", node=masks[0])
+    exp = "get_neighbors_in_bounds keeps the rows of coord + NEIGHBORS_MASK whose every component c satisfies 0 <= c < grid_shape (reduced with .all(axis=1))"
+    rets = X.returns_of(h.node)
+    ok = None
+    slot = {}
+    if len(rets) == 1:
+        rv = X.expand_locals(rets[0].value, h.node, keep=tuple(h.params()))
+        slot["returns"] = X.U(rv)[:200]
+        if isinstance(rv, ast.Subscript):
+            base = X.U(X.canon(rv.value))
+            atoms, axes = X.mask_atoms(rv.slice)
+            cand = X.expr_of(base)
+            gs = h.params()[1]
+            want = {N.compare_atom(cand, ast.GtE(), ast.Constant(0)).key(), N.compare_atom(cand, ast.Lt(), X.expr_of(gs)).key()}
+            base_ok = X.same_expr_x(rv.value, None, f"{h.params()[0]} + NEIGHBORS_MASK", f"NEIGHBORS_MASK + {h.params()[0]}")
+            ok = atoms == want and axes == {1} and base_ok
+            slot.update({"reduction_axes": sorted(str(a) for a in axes), "candidates": base})
+    ctx.judge(h, ok, slot, exp, "Wilson's walk can step outside the grid")
     nm = ctx.index.module_assign("maze_dataset.constants", "NEIGHBORS_MASK")
     from sa.fold import Evaluator, Unknown
     try:
@@ -290,7 +297,10 @@ def rule_B3(ctx: Ctx) -> None:
                   "the stored edge joins the popped cell and the chosen neighbour, oriented by the chosen neighbour's own delta")
     # start cell is visited before the loop
     pre = [s for s in f.node.body[: f.node.body.index(lp)] if isinstance(s, ast.Expr) and isinstance(s.value, ast.Call) and X.U(s.value.func) == "visited_cells.add"]
-    ctx.judge(f, len(pre) == 1 and X.U(pre[0].value.args[0]) == "tuple(start_coord)", {"pre_loop_adds": [X.U(p.value) for p in pre]},
+    init = [s for s in f.node.body[: f.node.body.index(lp)] if isinstance(s, (ast.Assign, ast.AnnAssign)) and X.U(s.targets[0] if isinstance(s, ast.Assign) else s.target) == "visited_cells"]
+    by_add = len(pre) == 1 and X.U(pre[0].value.args[0]) == "tuple(start_coord)" and len(init) == 1 and X.same_expr_x(init[0].value, None, "set()")
+    by_literal = not pre and len(init) == 1 and X.same_expr_x(init[0].value, None, "{tuple(start_coord)}", "set([tuple(start_coord)])", "set((tuple(start_coord),))")
+    ctx.judge(f, by_add or by_literal, {"pre_loop_adds": [X.U(p.value) for p in pre], "initial": X.U(init[0].value) if init else None},
               "the start cell is marked visited before the loop (so |edges| = |visited| - 1)")
 
     # ---- Wilson
@@ -306,31 +316,39 @@ def rule_B3(ctx: Ctx) -> None:
         ctx.unknown(w, {"commit_loops": len(commit), "walk_loops": len(walk)}, exp)
         return
     cl = commit[0]
-    rng_ok = isinstance(cl.iter, ast.Call) and dotted_of(cl.iter.func) == "range" and len(cl.iter.args) == 1 and \
-        N.aff_eq(cl.iter.args[0], X.expr_of("len(path) - 1"))
-    i = cl.target.id if isinstance(cl.target, ast.Name) else "?"
-    env = {}
+    # two idioms for "consecutive cells of the path": index loop with path[i] / path[i + 1], or zip(path[:-1], path[1:])
     defs = {}
-    for s in cl.body:
-        if isinstance(s, (ast.Assign, ast.AnnAssign)) and isinstance(s.targets[0] if isinstance(s, ast.Assign) else s.target, ast.Name) and s.value is not None:
-            defs[(s.targets[0] if isinstance(s, ast.Assign) else s.target).id] = s.value
-    edges = [s for s in cl.body if isinstance(s, ast.Assign) and isinstance(s.targets[0], ast.Subscript) and X.U(s.targets[0].value) == "connection_list"]
-    marks = [s for s in cl.body if isinstance(s, ast.Assign) and isinstance(s.targets[0], ast.Subscript) and X.U(s.targets[0].value) == "visited"]
+    for s_ in cl.body:
+        if isinstance(s_, (ast.Assign, ast.AnnAssign)) and isinstance(s_.targets[0] if isinstance(s_, ast.Assign) else s_.target, ast.Name) and s_.value is not None:
+            defs[(s_.targets[0] if isinstance(s_, ast.Assign) else s_.target).id] = s_.value
+    first_cell = second_cell = None
+    rng_ok = False
+    if isinstance(cl.iter, ast.Call) and dotted_of(cl.iter.func) == "range" and len(cl.iter.args) == 1 and isinstance(cl.target, ast.Name):
+        i = cl.target.id
+        rng_ok = N.aff_eq(X.substitute_len(cl.iter.args[0]), X.expr_of("len(path) - 1"))
+        for nme, d in defs.items():
+            if isinstance(d, ast.Subscript) and X.U(d.value) == "path":
+                if N.aff_eq(d.slice, X.expr_of(i)):
+                    first_cell = nme
+                elif N.aff_eq(d.slice, X.expr_of(f"{i} + 1")):
+                    second_cell = nme
+    elif isinstance(cl.iter, ast.Call) and dotted_of(cl.iter.func) == "zip" and len(cl.iter.args) == 2 and isinstance(cl.target, ast.Tuple) and len(cl.target.elts) == 2:
+        a0, a1 = cl.iter.args
+        rng_ok = X.same_expr_x(a0, None, "path[:-1]") and X.same_expr_x(a1, None, "path[1:]")
+        if rng_ok:
+            first_cell, second_cell = (e.id for e in cl.target.elts)
+    edges = [s_ for s_ in cl.body if isinstance(s_, ast.Assign) and isinstance(s_.targets[0], ast.Subscript) and X.U(s_.targets[0].value) == "connection_list"]
+    marks = [s_ for s_ in cl.body if isinstance(s_, ast.Assign) and isinstance(s_.targets[0], ast.Subscript) and X.U(s_.targets[0].value) == "visited"]
     uses = [u for u in L.lesser_endpoint_use(w.node) if u["store"]]
     ends_ok = False
     mark_ok = False
-    if uses:
+    if uses and first_cell and second_cell:
         d = uses[0]["detail"]
-        names = {d.get("then"), d.get("else")}
-        exprs = {X.U(defs[n]) for n in names if n in defs}
-        ends_ok = len(exprs) == 2 and any(N.aff_eq(defs[n].slice, X.expr_of(i)) for n in names if n in defs and isinstance(defs[n], ast.Subscript)) \
-            and any(N.aff_eq(defs[n].slice, X.expr_of(f"{i} + 1")) for n in names if n in defs and isinstance(defs[n], ast.Subscript)) \
-            and all(isinstance(defs[n], ast.Subscript) and X.U(defs[n].value) == "path" for n in names if n in defs)
-    if len(marks) == 1:
+        ends_ok = {d.get("then"), d.get("else")} == {first_cell, second_cell}
+    if len(marks) == 1 and first_cell:
         parts = N.subscript_parts(marks[0].targets[0])
-        base = X.U(parts[0].value) if isinstance(parts[0], ast.Subscript) else None
-        mark_ok = base in defs and isinstance(defs[base], ast.Subscript) and X.U(defs[base].value) == "path" and N.aff_eq(defs[base].slice, X.expr_of(i)) \
-            and isinstance(marks[0].value, ast.Constant) and marks[0].value.value is True
+        base = X.U(parts[0].value) if isinstance(parts[0], ast.Subscript) else (X.U(parts[0].args[0]) if isinstance(parts[0], ast.Call) and parts[0].args else None)
+        mark_ok = base == first_cell and isinstance(marks[0].value, ast.Constant) and marks[0].value.value is True
     ctx.judge(w, rng_ok and len(edges) == 1 and ends_ok and mark_ok,
               {"range": X.U(cl.iter), "edge_stores": len(edges), "endpoints_are_path_i_and_i_plus_1": ends_ok, "marks_path_i_visited": mark_ok}, exp,
               "committed walks skip an edge, join non-consecutive cells or leave cells unmarked (cycles / duplicated walks)", node=cl)
@@ -350,15 +368,25 @@ def rule_B3(ctx: Ctx) -> None:
                 kname = syms[0]
                 er_ok = a.get(1, 0) == 1
         slot["erase"] = X.U(erase[0])
-        # k is the index of the FIRST match (enumerate + break)
+        # k is the index of the FIRST match: for/enumerate/break, or next((i for i, c in enumerate(path) if array_equal(next, c)), None)
         first_ok = False
+        k_none_by_next = False
         for fl in [n for n in ast.walk(wl) if isinstance(n, ast.For)]:
             if isinstance(fl.iter, ast.Call) and dotted_of(fl.iter.func) == "enumerate" and X.U(fl.iter.args[0]) == "path":
                 iv = fl.target.elts[0].id
                 for n in ast.walk(fl):
-                    if isinstance(n, ast.If) and any(isinstance(s, ast.Assign) and X.U(s.targets[0]) == kname and X.U(s.value) == iv for s in n.body) \
-                            and any(isinstance(s, ast.Break) for s in n.body) and "array_equal" in X.U(n.test):
+                    if isinstance(n, ast.If) and any(isinstance(s_, ast.Assign) and X.U(s_.targets[0]) == kname and X.U(s_.value) == iv for s_ in n.body) \
+                            and any(isinstance(s_, ast.Break) for s_ in n.body) and "array_equal" in X.U(n.test):
                         first_ok = True
+        for d_ in (X.assignments_to(wl, kname) if kname else []):
+            if isinstance(d_, ast.Call) and dotted_of(d_.func) == "next" and len(d_.args) == 2 and isinstance(d_.args[1], ast.Constant) and d_.args[1].value is None \
+                    and isinstance(d_.args[0], ast.GeneratorExp):
+                ge = d_.args[0]
+                g0 = ge.generators[0]
+                if isinstance(g0.iter, ast.Call) and dotted_of(g0.iter.func) == "enumerate" and X.U(g0.iter.args[0]) == "path" and isinstance(g0.target, ast.Tuple) \
+                        and X.U(ge.elt) == X.U(g0.target.elts[0]) and len(g0.ifs) == 1 and "array_equal" in X.U(g0.ifs[0]) and X.U(g0.target.elts[1]) in X.U(g0.ifs[0]):
+                    first_ok = True
+                    k_none_by_next = True
         slot["k_is_first_match"] = first_ok
         if er_ok is not None:
             er_ok = er_ok and first_ok
@@ -370,7 +398,7 @@ def rule_B3(ctx: Ctx) -> None:
         guard_neg = isinstance(g_if, ast.If) and kname is not None and X.U(g_if.test) in (f"{kname} is None",) and erase[0] in g_if.orelse
         slot["erase_guard"] = X.U(g_if.test) if isinstance(g_if, ast.If) else None
         kinit = [d for d in X.assignments_to(wl, kname)] if kname else []
-        slot["k_initial_none"] = any(isinstance(d, ast.Constant) and d.value is None for d in kinit)
+        slot["k_initial_none"] = k_none_by_next or any(isinstance(d, ast.Constant) and d.value is None for d in kinit)
         if er_ok is not None:
             er_ok = er_ok and (guard_ok or guard_neg) and slot["k_initial_none"]
         # after erasing, current = path[-1]
@@ -402,7 +430,7 @@ def rule_B4(ctx: Ctx) -> None:
     f = _gen(ctx, "gen_percolation")
     d = X.assignments_to(f.node, "connection_list")
     src = [x for x in d if _is_random_bulk(x)]
-    ok = len(src) == 1 and any(X.U(c.func) in ("np.random.rand",) and X.U(c).replace(" ", "") == "np.random.rand(lattice_dim,*grid_shape)" for c in ast.walk(src[0]) if isinstance(c, ast.Call))
+    ok = len(src) == 1 and any(X.U(c.func) in ("np.random.rand",) and X.same_expr_x(c, None, "np.random.rand(lattice_dim, *grid_shape)") for c in ast.walk(src[0]) if isinstance(c, ast.Call))
     ctx.judge(f, ok, {"draw": X.U(src[0]) if src else None}, "percolation draws an array of shape (lattice_dim, *grid_shape)")
 
 
@@ -497,21 +525,32 @@ def rule_B7(ctx: Ctx) -> None:
 def rule_B8(ctx: Ctx) -> None:
     f = ctx.index.func(f"{GEN}._random_start_coord")
     gs, sc = f.params()[:2]
-    draws = [c for c in X.calls(f.node) if dotted_of(c.func) in ("np.random.randint", "numpy.random.randint")]
-    exp = "a random start cell is drawn with 0 <= coordinate < grid_shape on every axis (np.random.randint(0, high, size=len(grid_shape)) with high <= grid_shape elementwise)"
-    if len(draws) != 1:
-        ctx.unknown(f, {"randint_calls": len(draws)}, exp)
-    else:
-        c = draws[0]
-        lo = N.arg_or_kw(c, 0, "low")
-        hi = N.arg_or_kw(c, 1, "high")
-        size = N.kwarg(c, "size")
-        ok_hi = hi is not None and (X.same_expr(hi, f"np.maximum({gs} - 1, 1)") or X.same_expr(hi, gs))
-        ctx.judge(f, N.const_int(lo) == 0 and ok_hi and size is not None and X.same_expr(size, f"len({gs})"),
-                  {"draw": X.U(c)}, exp, "the start cell can lie outside the grid (or have the wrong dimension)")
-    g = [n for n in f.node.body if isinstance(n, ast.If)]
-    ok = len(g) == 1 and X.same_expr(g[0].test, f"{sc} is None") and any(isinstance(x, ast.Assign) and X.same_expr(x.value, f"np.array({sc})") for x in g[0].orelse)
-    ctx.judge(f, ok, {"guard": X.U(g[0].test) if g else None}, "a given start cell is used as it is (converted to an array); only None is replaced by a random draw")
+    exp = ("a given start cell is returned as it is (np.array of it); only for None a random cell is drawn with "
+           "np.random.randint(0, high, size=len(grid_shape)), high = np.maximum(grid_shape - 1, 1) (or grid_shape): inside the grid on every axis")
+    none_key = N.boolean_nf(X.expr_of(f"{sc} is None")).key()
+    cands = X.value_candidates(f.node)
+    if not cands:
+        ctx.unknown(f, {}, exp, "no returned value found")
+        return
+    seen = {"random": 0, "given": 0}
+    for val, conds in cands:
+        lits = set()
+        for t, lab in conds:
+            nf = N.boolean_nf(t, neg=(lab is False))
+            lits |= {a.key() for a in (N.nf_atoms(nf) if (isinstance(nf, N.Atom) or nf[0] == "and") else [])}
+        is_none_branch = none_key in lits
+        v = X.expand_locals(val, f.node, keep=(sc, gs))
+        if is_none_branch:
+            seen["random"] += 1
+            ok = X.same_expr_x(v, None, f"np.random.randint(0, np.maximum({gs} - 1, 1), size=len({gs}))", f"np.random.randint(0, {gs}, size=len({gs}))",
+                               f"np.random.randint(low=0, high=np.maximum({gs} - 1, 1), size=len({gs}))")
+            ctx.judge(f, ok, {"branch": f"{sc} is None", "value": X.U(v)[:120]}, exp, "the start cell can lie outside the grid (or have the wrong dimension)")
+        else:
+            seen["given"] += 1
+            ok = X.same_expr_x(v, None, f"np.array({sc})", f"np.asarray({sc})")
+            ctx.judge(f, ok, {"branch": f"{sc} is not None", "value": X.U(v)[:120]}, exp, "a given start cell is not used as given")
+    if not (seen["random"] and seen["given"]):
+        ctx.violation(f, {"branches_seen": seen}, exp, "one of the two cases (given start / random start) is missing")
 
 
 def _forwarded(call: ast.Call) -> dict:
@@ -543,8 +582,13 @@ def rule_B9(ctx: Ctx) -> None:
                   "an argument is dropped or crossed: the DFS stage ignores a constraint or starts elsewhere than recorded")
         # percolation only ADDS edges to the DFS maze
         st = [x for x in ast.walk(f.node) if isinstance(x, ast.Assign) and isinstance(x.targets[0], ast.Subscript) and "connection_list" in X.U(x.targets[0])]
-        ok = len(st) == 1 and isinstance(st[0].value, ast.Call) and dotted_of(st[0].value.func) in ("np.logical_or", "numpy.logical_or") \
-            and "maze.connection_list" in [X.U(a) for a in st[0].value.args] and len(st[0].value.args) == 2
+        ok = False
+        if len(st) == 1:
+            v_ = st[0].value
+            if isinstance(v_, ast.Call) and dotted_of(v_.func) in ("np.logical_or", "numpy.logical_or") and len(v_.args) == 2:
+                ok = "maze.connection_list" in [X.U(a) for a in v_.args]
+            elif isinstance(v_, ast.BinOp) and isinstance(v_.op, ast.BitOr):
+                ok = "maze.connection_list" in (X.U(v_.left), X.U(v_.right))
         ctx.judge(f, ok, {"combine": X.U(st[0].value) if st else None},
                   "the percolated maze is the union (logical_or) of the DFS maze and the random edges: every DFS connection survives",
                   "DFS connections are removed by the combination: the maze is no longer connected although the DFS metadata says so")
